@@ -12,6 +12,23 @@ TRUST = ('Trusted base: rustc nightly THIR/MIR for this source (same cfgs as the
          'the evidence file.')
 
 CHECKS = {
+    'C05': {
+        'technique': 'panic-obligation discharge over the whole non-start-up program: site census from the typed tree (cross-checked against the MIR panic-edge census), each site discharged by path-condition entailment, re-located parser/validator facts, invariants I1-I8 or a term-keyed justified table with structural rechecks; precondition lifting to callers with a kill rule; await census under lexical lock regions',
+        'level': ('Decides that every unwrap/expect, index, str slice, integer operation, explicit panic and panicking library call '
+                  'reachable from session code is discharged, that no socket/timer await happens under the state lock, that handler '
+                  'errors do not end the serving loop and output is flushed after every event. Undischarged sites of the pinned tree '
+                  '(KICK tail, repeated KICK victim, match_wildcard arithmetic/slicing, operators_count decrements, the I1-dependent '
+                  'unwraps) are genuine defects and listed as known findings.'),
+        'note': TRUST + ' Assumes a sane system clock; detached timer/lookup tasks are observations; resource exhaustion and panics inside dependencies are not decided. Thorough tier repeats the analysis in all four build configurations.',
+    },
+    'C14': {
+        'technique': 'panic-obligation discharge restricted to the matcher/normaliser, structural loop-progress witnesses, provenance of stored/announced masks, template check of the three normalisation cases, argument-role census of match_wildcard calls',
+        'level': ('Decides the structural necessary conditions only: the comparison cannot abort (violated on the pinned tree: known '
+                  'findings), its loops make progress, list masks are normalised before store/announce/compare with the three '
+                  'documented completions, and every call site passes (mask, text). That the function implements glob semantics for '
+                  'every pair of strings is NOT decided by this technique.'),
+        'note': TRUST + ' Glob semantics over all strings is a runtime-value property (declined, see DESIGN.md C14).',
+    },
     'C19': {
         'technique': 'coupling analysis: finite enumeration of abstract paths (truth assignments of the atoms in the writers\' path conditions + pre-state flags) comparing counter deltas with the change of the counted predicate; field provenance for LUSERS/ISON/USERHOST; acquire/release pairing for connection slots',
         'level': ('Decides for every abstract path of every writer that operators_count / invisible_users_count / the WALLOPS set '
